@@ -603,7 +603,7 @@ func manyInputs(id any, entry string, n, par int) {
 	}
 	// a series is one guarded call that legitimately runs for seconds: its own watchdog
 	oldWd := watchdog
-	watchdog = 10 * time.Minute
+	watchdog = 8 * oldWd // (quick: 96 s, thorough: 4 min - a healthy series takes a few seconds)
 	defer func() { watchdog = oldWd }()
 	// the library's diagnostics (one line per unknown node type ...) are not collected for a series this long
 	log.SetOutput(io.Discard)
